@@ -263,7 +263,7 @@ fn check_case(item: &str, _ctx: &Ctx) -> Outcome {
 pub fn property() -> Property {
     Property {
         id: "C17",
-        rule: "Cases: proptest-generated INPUT statements — with / without / with an empty prompt (also non-ASCII), with and without the leading comma, 1-5 targets of every type, array targets subscripted by an earlier Integer target — and reply scripts of 1-4 replies followed by acceptable ones: well-formed, one unconvertible field (non-numeric text, Integer out of range, malformed exponent, bad radix digits, 256-character string), \
+        rule: "Cases: proptest-generated INPUT statements — (a third of them after DEFSTR N:DEFINT M:DEFDBL L, with undecorated and suffixed targets of those letters) with / without / with an empty prompt (also non-ASCII), with and without the leading comma, 1-5 targets of every type, array targets subscripted by an earlier Integer target — and reply scripts of 1-4 replies followed by acceptable ones: well-formed, one unconvertible field (non-numeric text, Integer out of range, malformed exponent, bad radix digits, 256-character string), \
 too few / too many fields, commas inside quotes with surrounding blanks, empty fields, decimal / E e D d exponent / & / &H / suffixed numbers, a reply longer than 1024 bytes, arbitrary text; optionally the statement is executed twice. \
 Oracle: the reference interpreter (prompt text + `? `, caps flag off exactly for the leading-comma form, exactly n fields (one variable takes the whole reply), trim, one pair of enclosing quotes stripped for strings, conversion as assignment with empty = 0, REDO FROM START and the same prompt after any unacceptable reply, the statement after INPUT sees the accepted values, cursor column 0 afterwards); \
 the stored values' types are probed. Non-trivial: >= 2 targets and (a rejected reply or a quoted comma). Distinct by statement + replies.",
